@@ -37,6 +37,9 @@ func init() {
 		Variant{ID: "c03-r4-rotate-offset-dropped", Prop: "C03", File: "streamer.go",
 			Old: "\t\t\tpos.Filename = filename\n\t\t\tpos.Offset = offset\n", New: "\t\t\tpos.Filename = filename\n\t\t\tpos.Offset = 4\n\t\t\t_ = offset\n",
 			Expect: "C03-R4 rotate@parser[Offset]"},
+		Variant{ID: "c03-r4-skip-fake-rotate", Prop: "C03", File: "streamer.go",
+			Old: "\t\t\tpos.Filename = filename\n\t\t\tpos.Offset = offset\n", New: "\t\t\tif ev.Timestamp() == 0 {\n\t\t\t\tcontinue\n\t\t\t}\n\t\t\tpos.Filename = filename\n\t\t\tpos.Offset = offset\n",
+			Expect: "C03-R4 rotate-required@parser"},
 		Variant{ID: "c03-r5-int32-hop", Prop: "C03", File: "replication/binlog_event_common.go",
 			Old: "return int64(binary.LittleEndian.Uint32(ev.Bytes()[13 : 13+4]))", New: "return int64(int32(binary.LittleEndian.Uint32(ev.Bytes()[13 : 13+4])))",
 			Expect: "C03-R5 conv@"},
@@ -227,6 +230,24 @@ func c03R4(a *A, r *Roles, ar *Arms) {
 		seen[s.Field] = seen[s.Field] || good
 		a.check(good, rule, "rotate@parser["+s.Field+"]", w.posOf(s.Store), fmt.Sprintf("pos.%s = Rotate() result %d", s.Field, idx),
 			fmt.Sprintf("after a rotation pos.%s is %s, not the rotate event's field: later labels point into the wrong file/offset", s.Field, describe(org)))
+	}
+	// both stores on every non-error path of the arm
+	storeBlk := map[string]map[*ssa.BasicBlock]bool{"Filename": {}, "Offset": {}}
+	for _, s := range r.Pos.stores() {
+		if s.Fn == r.Parser && ar.of[s.Store.Block()]["IsRotate"] && storeBlk[s.Field] != nil {
+			storeBlk[s.Field][s.Store.Block()] = true
+		}
+	}
+	for _, p := range ar.Preds {
+		if p.Name != "IsRotate" {
+			continue
+		}
+		for _, f := range []string{"Filename", "Offset"} {
+			m := storeBlk[f]
+			esc := reachesAvoiding(p.Entry, r.LoopHead, func(b *ssa.BasicBlock) bool { return m[b] }, nil) && !m[p.Entry]
+			a.check(!esc, rule, "rotate-required@parser["+f+"]", w.posOf(p.Entry.Instrs[0]), "every rotate event that decodes moves pos."+f,
+				"a ROTATE event can pass without updating pos."+f+" (skipped on some condition): when it is the only announcement of the new file (fake rotate after a master restart) all later labels and the resume position name the old file")
+		}
 	}
 	for f := range want {
 		if !seen[f] {
